@@ -18,7 +18,7 @@ import (
 )
 
 func init() {
-	Register(&Rule{Name: "CONST", Floor: 150, Run: runConst,
+	Register(&Rule{Name: "CONST", Floor: 120, Run: runConst,
 		Doc: "word-base constants, power tables, division-by-constant magic numbers and enumerators equal their mathematical definition"})
 }
 
